@@ -5,6 +5,12 @@
    (not derived from the counter updates in the code). */
 #include "verif.h"
 #include "src/compress.c"
+#include "c12_undef.h"
+/* C12: what "the guard holds" means in this monitor model */
+int g_single;                                 /* single-threaded phase (init/uninit of a run: no other thread exists) */
+extern int g_held, g_task;
+int verif_lock_ok(int guard) { return g_single || (guard == C12_READER_ONLY ? g_task == 5 /* T_INPUT: the reader's callback */ : g_held); }
+
 
 /* ---------------- objects of other translation units */
 unsigned num_worker, bs100k; bool ultra, eof;
@@ -322,6 +328,7 @@ void h_write_header(void)
 void h_write_trailer(void)
 {
   uint32_t c; combined_crc = c;
+  g_single = 1;                          /* uninit() runs after every other thread of the run was joined */
   write_trailer();
   V_ASSERT(g_xw_calls == 1 && g_xw_len == 10 && g_xw[0] == 0x17 && g_xw[1] == 0x72 && g_xw[2] == 0x45 && g_xw[3] == 0x38 && g_xw[4] == 0x50 && g_xw[5] == 0x90, "stream trailer magic 17 72 45 38 50 90");
   V_ASSERT((((uint32_t)g_xw[6] << 24) | ((uint32_t)g_xw[7] << 16) | ((uint32_t)g_xw[8] << 8) | g_xw[9]) == c, "stream trailer carries the combined CRC big-endian");
@@ -332,6 +339,7 @@ void h_write_trailer(void)
 void h_init(void)
 {
   unsigned nw; V_ASSUME(nw >= 1 && nw <= 100000); num_worker = nw;
+  g_single = 1;                          /* init() runs in primary_thread() before any other thread of the run exists (process.primary_prologue) */
   total_in_slots = 2u * nw; total_out_slots = 2u * nw + 2u;
   in_slots = total_in_slots; out_slots = total_out_slots; work_units = num_worker;    /* primary_thread() prologue, proved in process.primary */
   { unsigned l; V_ASSUME(l >= 1 && l <= 9); bs100k = l; }
